@@ -186,7 +186,7 @@ class Choices:
         return self.choice([(3, 4, 2), (4, 3, 3), (3, 3, 3), (2, 3, 4), (3, 1, 2)])
 
     def shapeN(self):
-        return self.choice([(3, 4, 2), (4, 3, 3), (4, 3), (2, 3, 2, 2), (3, 3, 3), (1, 4, 3)])
+        return self.choice([(3, 4, 2), (4, 3, 3), (4, 3), (2, 3, 2, 2), (3, 3, 3), (1, 4, 3), (5, 2)])
 
     def weights(self, rank):
         k = self.choice(["none", "ones", "pos", "neg"])
@@ -977,10 +977,10 @@ def e_skr(g):
     kw = dict(matrices=mats if form == "list" else tuple(mats), n_samples=g.choice([4, 2]), random_state=g.seed())
     g.opt(kw, "skip_matrix", [0, 1], 0.3)
     g.opt(kw, "return_sampled_rows", [True], 0.5)
-    if g.flag(0.45):
+    if g.flag(0.6):
         k = len(mats) - (1 if "skip_matrix" in kw else 0)
         base = g.choice([[0, 1, 2, 0], [0, -1, 2, -2], [1, 1, 0, -1]])[: kw["n_samples"]]
-        form = g.choice(["list", "array", "tuple"])
+        form = g.choice(["list", "array", "tuple", "array"])
         kw["indices_list"] = [np.array(base) if form == "array" else (tuple(base) if form == "tuple" else list(base)) for _ in range(k)]
     return dict(fn=D.sample_khatri_rao, kwargs=kw)
 
@@ -990,7 +990,7 @@ def e_skr(g):
 
 def _nnls_problem(g, r=None, c=None):
     rs = g.rs()
-    r = r or g.choice([3, 2, 4, 1])  # incl. single-component problems
+    r = r or g.choice([3, 2, 4, 1, 1])  # incl. single-component problems
     c = c or g.choice([4, 1, 3])
     U = rs.random_sample((6, r))
     M = rs.random_sample((6, c)) - 0.2
@@ -1011,7 +1011,7 @@ def e_hals(g):
     if g.flag(0.5):
         kw["V"] = g.arr(UtM.shape, nonneg=True, rs=rs)
         exempt.append("V")  # documented: the start matrix is updated in place
-    g.opt(kw, "sparsity_coefficient", [0.1], 0.3)
+    g.opt(kw, "sparsity_coefficient", [0.1], 0.5)
     g.opt(kw, "ridge_coefficient", [0.1], 0.3)
     g.opt(kw, "nonzero_rows", [True], 0.3)
     g.opt(kw, "tol", [0], 0.2)
